@@ -1459,14 +1459,8 @@ where
     T: Node + Clone,
 {
     fn set_named_item(&self, arg: T) -> error::Result<Option<T>> {
-        let name = arg.node_name();
-        if let Ok(v) = self.remove_named_item(name.as_str()) {
-            (self.add)(&self.node, arg)?; // FIXME: revert on failed.
-            Ok(Some(v))
-        } else {
-            (self.add)(&self.node, arg)?;
-            Ok(None)
-        }
+        // adding replaces the item of that name and answers it; nothing is removed when the new item is refused
+        (self.add)(&self.node, arg)
     }
 
     fn remove_named_item(&self, name: &str) -> error::Result<T> {
